@@ -79,6 +79,10 @@ func run(c *harness.Ctx, i int) {
 		transientShortage(c)
 		return
 	}
+	if i%20 == 16 {
+		extractPair(c)
+		return
+	}
 	switch i % 6 {
 	case 0, 1, 2:
 		storeCrash(c, i)
@@ -852,6 +856,110 @@ func linearizable(c *harness.Ctx) {
 	c.NonTrivial("linearizable|ids%d|g%d|u%v", nIDs, workers, uncompressed)
 	c.Sample(map[string]interface{}{"leg": "linearizability", "ids": nIDs, "goroutines": workers, "ops": len(hist)})
 	_ = context.Background
+}
+
+// extractPair: two extracts (temp-file mode) of the same index onto the same destination at the same time, as two
+// containers sharing a volume run them - each in a PID namespace of its own, so both have the same process ID - or as
+// two plain processes. The second one starts while the first is half way and dies after a few chunks (SIGKILL at a
+// failpoint). The first one goes on: if it reports success the destination holds the blob, otherwise its previous state.
+func extractPair(c *harness.Ctx) {
+	rng := c.Rng
+	dir := c.CaseDir()
+	sz := dsu.Sizes{Min: 1024, Avg: 2048, Max: 4096}
+	blob := dsu.MakeBlob(rng, "random", 2048*(6+rng.Intn(10)), sz)
+	idx := dsu.RefIndex(blob, sz)
+	if len(idx.Chunks) < 4 {
+		return
+	}
+	store := dsu.NewMemStore("s")
+	for _, ch := range idx.Chunks {
+		store.PutRaw(ch.ID, blob[ch.Start:ch.Start+ch.Size])
+	}
+	h := desync.NewHTTPHandler(store, false, false, desync.Converters{desync.Compressor{}}, "")
+	holdAt := int64(2 + rng.Intn(len(idx.Chunks)-2))
+	var reqsA int64
+	held := make(chan struct{})
+	release := make(chan struct{})
+	var once sync.Once
+	srvA := httptest.NewServer(http.HandlerFunc(func(w http.ResponseWriter, r *http.Request) {
+		if r.Method == "GET" && atomic.AddInt64(&reqsA, 1) == holdAt {
+			once.Do(func() { close(held) })
+			<-release
+		}
+		h.ServeHTTP(w, r)
+	}))
+	defer srvA.Close()
+	srvB := httptest.NewServer(h)
+	defer srvB.Close()
+	idxFile := filepath.Join(dir, "blob.caibx")
+	dsu.Must(dsu.WriteIndex(idxFile, idx))
+	dest := filepath.Join(dir, "dest")
+	old := []byte("old content\n")
+	hadOld := rng.Intn(2) == 0
+	if hadOld {
+		dsu.WriteFile(dest, old)
+	}
+	namespaces := rng.Intn(3) != 0
+	killAt := 1 + rng.Intn(3)
+	c.Info("extract-pair namespaces=%v chunks=%d first-held-at-request=%d second-killed-at-chunk=%d old-destination=%v", namespaces, len(idx.Chunks), holdAt, killAt, hadOld)
+	c.LogInfo()
+	mk := func(url string, env ...string) *exec.Cmd {
+		args := []string{cli, "extract", "-n", "1", "-s", url, "-e", "1", idxFile, dest}
+		var cmd *exec.Cmd
+		if namespaces {
+			// (not as process 1 of the namespace, which no signal from inside can kill: the shell is, the command gets 2)
+			cmd = exec.Command("unshare", append([]string{"--pid", "--fork", "--kill-child", "/bin/sh", "-c", `"$@" & wait $!`, "sh"}, args...)...)
+		} else {
+			cmd = exec.Command(args[0], args[1:]...)
+		}
+		cmd.Env = append(append(os.Environ(), "HOME="+dir), env...)
+		return cmd
+	}
+	a := mk(srvA.URL)
+	var aerrOut bytes.Buffer
+	a.Stderr = &aerrOut
+	if err := a.Start(); err != nil {
+		c.Skip("cannot start: %v", err)
+		close(release)
+		return
+	}
+	adone := make(chan error, 1)
+	go func() { adone <- a.Wait() }()
+	select {
+	case <-held:
+	case err := <-adone:
+		close(release)
+		if namespaces && err != nil {
+			c.Skip("unshare: %v %s", err, aerrOut.String())
+		}
+		return
+	}
+	b := mk(srvB.URL, fmt.Sprintf("VERIF_FAILPOINTS=assemble.beforeGetChunk=kill@%d", killAt))
+	berr := b.Run()
+	close(release)
+	aerr := <-adone
+	c.Count("extract_pairs", 1)
+	if berr != nil {
+		c.Count("extract_pairs_second_died", 1)
+	}
+	got, rerr := os.ReadFile(dest)
+	switch {
+	case aerr == nil && (rerr != nil || !bytes.Equal(got, blob)):
+		c.Violation("extract-success-wrong", "two extracts onto one destination (own PID namespaces: %v), the second started while the first was at chunk request %d and died at its chunk %d: the first exited 0, the destination (%d bytes, err %v) is not the blob (%d bytes)", namespaces, holdAt, killAt, len(got), rerr, len(blob))
+		return
+	case aerr != nil && berr != nil:
+		// both failed: previous state
+		if hadOld && !bytes.Equal(got, old) {
+			c.Violation("dest-touched:old", "two extracts onto one destination both failed and the destination no longer holds its previous content (%d bytes, err %v)", len(got), rerr)
+			return
+		}
+		if !hadOld && rerr == nil {
+			c.Violation("dest-touched:absent", "two extracts onto one destination both failed and the destination now exists with %d bytes", len(got))
+			return
+		}
+	}
+	c.NonTrivial("extract-pair|ns%v|a%v|b%v|old%v", namespaces, aerr == nil, berr == nil, hadOld)
+	c.Sample(map[string]interface{}{"leg": "extract-pair", "namespaces": namespaces, "first_ok": aerr == nil, "second_died": berr != nil})
 }
 
 // extractSyscallCrash: a temp-file extract over an existing destination is killed (strace injection, unhooked binary)
